@@ -38,6 +38,7 @@ typedef struct harness {
   int (*at_quiescence)(void);        // 1 = injected a stimulus (continue), 0 = nothing left to do
   void (*final_check)(void);         // called when everything is finished
   int (*expect_unfinished)(int idx); // optional: fiber idx is allowed to be unfinished at the end
+  void (*entry)(void* arg);          // optional: thread-level harness (no fiber runtime); replaces rt_main
 } harness_t;
 
 extern const harness_t* const all_harnesses[];
